@@ -224,6 +224,11 @@ def _oracle(sizes, de, pairs):
 
 
 def replay(case):
+    if case.get("kind") == "growth-real":
+        r = _growth_positional()
+        if not r["reproduced"] and r.get("rows", 0) <= 15000:
+            return dict(reproduced=None, detail="the cross-check continuum no longer crosses the 15000 boundary")
+        return r
     sizes = case["sizes"]
     if case.get("chunk") is not None:
         # a scaled-capacity counterexample: first the same inputs at the real capacity; if the
@@ -307,8 +312,14 @@ def _growth_positional(m=140):
                 rows=len(al))
 
 
+def real_checks(tier):
+    """concrete cross-check at the REAL buffer capacity: 2 x 140 units (19880 tuples, > 15000 candidates: two growths) on the real build
+    against a float64 oracle - a defect that needs the real 10000 / 15000 boundaries is reported as a violation"""
+    return [dict(kind="growth-real", name="candidates of a 2x140-unit continuum across the real 10000 / 15000 buffer boundaries == oracle")]
+
+
 def tv_cases(tier):
-    return [dict(kind="growth")] + [dict(kind="kernel", sizes=[3, 2], de="3/2",
+    return [dict(kind="kernel", sizes=[3, 2], de="3/2",
                                          pairs={"0,3": "1/2", "0,4": "4", "1,3": "7", "1,4": "0", "2,3": "3", "2,4": "3/4"}),
                                     dict(kind="kernel", sizes=[2, 1, 1], de="1",
                                          pairs={"0,2": "1/4", "1,2": "5", "0,3": "2", "1,3": "1", "2,3": "1/2"})]
